@@ -35,6 +35,11 @@ class EntRequestParams:
     rotations_local: Tuple[int, int, int] = (0, 0, 0)
     rotations_remote: Tuple[int, int, int] = (0, 0, 0)
 
+    def __post_init__(self) -> None:
+        # The number of pairs is used as a plain integer (in `range`, as a length):
+        # a value that behaves like an int (a Future that has its value) is converted once.
+        self.number = int(self.number)
+
 
 # Indices of Create Request arguments in serialized NetQASM array
 SER_CREATE_IDX_TYPE = 0
